@@ -21,6 +21,12 @@
                                     janet_symcache_init: I (janet_symbol) -> n (new object) | o (existing); G (janet_symbol_gen) -> g<hex of
                                     the new symbol>; D (janet_symbol_deinit) -> d; X -> x<cap>,<count>,<deleted>,<counter hex>{,<slot>:<hex|->}
                                     (every non-empty slot; `-` = tombstone); `!` and stop when the model hits the NULL-bucket assertion
+   aval <id> aterm               -> "h <hash as int32> t <typetag>" from the model WITH ABSTRACT VALUES (Value/Abstract.lean);
+                                    aterm = term extended by  a <hex type name> <hex16 content> <hex16 NaN-boxed word> <hex16 address of the
+                                    JanetAbstractType>  (content = the 8-byte payload the hooks read for core/s64, core/u64); the memory
+                                    (`AbsHeap`: word -> type pointer, word -> payload, type pointer -> hooks by type name through the
+                                    regenerated table `Gen.ValueAbs.hookedTypes`) is accumulated from the a-tokens seen so far
+   arow <i>                      -> as `row` over the values given by `aval`: equalsL / jcompareL under that memory
    iterrow <i>                   -> as `row`, computed by the ITERATIVE mirrors of janet_equals / janet_compare (explicit traversal
                                     stack, Value/Traverse.lean; `?` = fuel exhausted), then a space and the deepest stack seen
 -/
@@ -30,6 +36,7 @@ import JanetModel.Value.RobinDup
 import JanetModel.Value.StringLoop
 import JanetModel.Value.SymGen
 import JanetModel.Value.Traverse
+import JanetModel.Value.Abstract
 open Driver JanetModel.Value
 
 abbrev V := JVal F64
@@ -208,4 +215,83 @@ def step (st : Array V) (toks : List String) : Array V × String :=
     (st, String.intercalate " " (go (ops.length + 1) SymCache.ginit ops []).reverse)
   | _ => (st, "bad-op")
 
-def main : IO Unit := runLoop (#[] : Array V) step
+/-! ### values with abstracts -/
+
+structure AbsEntry where
+  bits : UInt64
+  ty : Nat
+  payload : UInt64
+  name : String
+
+abbrev AV := AVal F64
+
+mutual
+partial def parseATerm : List String → Option (AV × List AbsEntry × List String)
+  | "a" :: nm :: pl :: b :: t :: rest => do
+      let name := String.ofList ((← bytesOfHex nm).map Char.ofNat)
+      let pl ← hexNat pl
+      let b ← hexNat b
+      let t ← hexNat t
+      pure (.leaf (.abs b.toUInt64), [⟨b.toUInt64, t, pl.toUInt64, name⟩], rest)
+  | "T" :: br :: len :: rest => do
+      let n ← len.toNat?
+      let (xs, es, rest) ← parseAMany n rest
+      pure (.tuple (br == "1") xs, es, rest)
+  | "S" :: cap :: pf :: rest => do
+      let n ← cap.toNat?
+      let (xs, es, rest) ← parseAMany (2 * n) rest
+      if pf == "1" then
+        let (p, es2, rest) ← parseATerm rest
+        pure (.struct xs [p], es ++ es2, rest)
+      else pure (.struct xs [], es, rest)
+  | toks => do
+      let (v, rest) ← parseTerm toks
+      pure (ofJVal v, [], rest)
+partial def parseAMany : Nat → List String → Option (List AV × List AbsEntry × List String)
+  | 0, rest => some ([], [], rest)
+  | n + 1, rest => do
+      let (x, e1, rest) ← parseATerm rest
+      let (xs, e2, rest) ← parseAMany n rest
+      pure (x :: xs, e1 ++ e2, rest)
+end
+
+structure St where
+  vals : Array V := #[]
+  avals : Array AV := #[]
+  heap : List AbsEntry := []
+
+/-- memory as value.c reads it, from the abstracts serialised so far; the hooks of a type come from its NAME through the
+    regenerated table of hooked types (a type the table does not know has no hooks) -/
+def heapOf (es : List AbsEntry) : AbsHeap :=
+  intHeapD (fun b => match es.find? (·.bits == b) with | some e => e.ty | none => 0)
+    (fun b => match es.find? (·.bits == b) with | some e => e.payload | none => 0)
+    (fun t => match es.find? (·.ty == t) with
+      | some e => (coreHooks e.name).getD ⟨none, none⟩
+      | none => ⟨none, none⟩)
+
+def apairChar (H : AbsHeap) (a b : AV) : Char :=
+  let _ : AbsHeap := H
+  let e := equalsL a b
+  match jcompareL a b with
+  | .lt => if e then 'L' else '<'
+  | .eq => if e then '=' else 'Z'
+  | .gt => if e then 'G' else '>'
+
+def step2 (S : St) (toks : List String) : St × String :=
+  match toks with
+  | "aval" :: id :: rest =>
+    match parseATerm rest with
+    | some (v, es, []) =>
+      if id.toNat? == some S.avals.size then
+        let heap := S.heap ++ es.filter (fun e => !(S.heap.any (·.bits == e.bits)))
+        let _ : AbsHeap := heapOf heap
+        ({ S with avals := S.avals.push v, heap := heap }, s!"h {sInt (hashL v)} t {v.typeTag}")
+      else (S, "bad-id")
+    | _ => (S, "bad-term")
+  | ["arow", i] =>
+    match i.toNat? >>= (S.avals[·]?) with
+    | some a => let H := heapOf S.heap; (S, String.ofList (S.avals.toList.map (apairChar H a)))
+    | none => (S, "bad-id")
+  | _ => let (v, o) := step S.vals toks; ({ S with vals := v }, o)
+
+def main : IO Unit := runLoop ({} : St) step2
